@@ -1,15 +1,1337 @@
-//! SQL fragment: query specs (AST), rendering to SQL text, reference evaluation.  (extended below)
+//! SQL fragment: query specs (AST), rendering to SQL text, generation, reference evaluation.
+//!
+//! The evaluator is a row-at-a-time interpreter of what the properties state (C03-C06). Where
+//! the engine's behaviour is fixed by the pinned test suite the model adopts it (integer `/`
+//! truncates, AVG = SUM/COUNT in the operand type, an aggregate over no non-NULL input is NULL
+//! — COUNT included —, no LIMIT means all rows, an aggregate query over no rows returns no row).
 
+use crate::env::*;
+use crate::model::*;
+use locustdb_simrt::core::Rng;
 use serde::{Deserialize, Serialize};
+use std::cmp::Ordering;
+use std::collections::BTreeMap;
+
+#[derive(Clone, Debug, PartialEq, Serialize, Deserialize)]
+pub enum Expr {
+    Col(String),
+    I(i64),
+    F(u64),
+    S(String),
+    Add(Box<Expr>, Box<Expr>),
+    Sub(Box<Expr>, Box<Expr>),
+    Mul(Box<Expr>, Box<Expr>),
+    Div(Box<Expr>, Box<Expr>),
+    Mod(Box<Expr>, Box<Expr>),
+}
+
+#[derive(Clone, Copy, Debug, PartialEq, Eq, Serialize, Deserialize)]
+pub enum CmpOp {
+    Eq,
+    Ne,
+    Lt,
+    Le,
+    Gt,
+    Ge,
+}
+
+#[derive(Clone, Debug, PartialEq, Serialize, Deserialize)]
+pub enum Pred {
+    Cmp(CmpOp, Expr, Expr),
+    IsNull(String),
+    IsNotNull(String),
+    And(Box<Pred>, Box<Pred>),
+    Or(Box<Pred>, Box<Pred>),
+    Not(Box<Pred>),
+}
+
+#[derive(Clone, Copy, Debug, PartialEq, Eq, Serialize, Deserialize)]
+pub enum AggFn {
+    Count,
+    Sum,
+    Min,
+    Max,
+}
+
+#[derive(Clone, Debug, PartialEq, Serialize, Deserialize)]
+pub enum SelItem {
+    E(Expr),
+    Agg(AggFn, Expr),
+}
 
 #[derive(Clone, Debug, PartialEq, Serialize, Deserialize)]
 pub struct QSpec {
     pub table: String,
+    pub select: Vec<SelItem>,
+    pub filter: Option<Pred>,
+    /// (key, descending)
+    pub order: Vec<(Expr, bool)>,
+    pub limit: Option<u64>,
+    pub offset: Option<u64>,
     pub sql: String,
 }
 
-pub fn exec_query(env: &mut crate::env::Env, q: &QSpec, ctx: &str) {
-    // (replaced by the evaluator-backed implementation)
-    let r = env.query(&q.sql);
-    crate::exec_more::check_wellformed(env, &q.sql, &r, ctx);
+// ---------------------------------------------------------------------------------------------
+// rendering
+// ---------------------------------------------------------------------------------------------
+
+fn lit_f(bits: u64) -> String {
+    let x = f64::from_bits(bits);
+    // a form sqlparser reads back as the same f64 and the engine parses as a float
+    let s = format!("{:?}", x);
+    if s.contains('.') || s.contains('e') {
+        s
+    } else {
+        format!("{s}.0")
+    }
+}
+
+pub fn render_expr(e: &Expr) -> String {
+    match e {
+        Expr::Col(c) => quote_ident(c),
+        Expr::I(i) => {
+            if *i < 0 {
+                format!("({i})")
+            } else {
+                format!("{i}")
+            }
+        }
+        Expr::F(b) => {
+            let s = lit_f(*b);
+            if s.starts_with('-') {
+                format!("({s})")
+            } else {
+                s
+            }
+        }
+        Expr::S(s) => format!("'{}'", s.replace('\'', "''")),
+        Expr::Add(a, b) => format!("({} + {})", render_expr(a), render_expr(b)),
+        Expr::Sub(a, b) => format!("({} - {})", render_expr(a), render_expr(b)),
+        Expr::Mul(a, b) => format!("({} * {})", render_expr(a), render_expr(b)),
+        Expr::Div(a, b) => format!("({} / {})", render_expr(a), render_expr(b)),
+        Expr::Mod(a, b) => format!("({} % {})", render_expr(a), render_expr(b)),
+    }
+}
+
+fn render_pred(p: &Pred) -> String {
+    match p {
+        Pred::Cmp(op, a, b) => {
+            let o = match op {
+                CmpOp::Eq => "=",
+                CmpOp::Ne => "<>",
+                CmpOp::Lt => "<",
+                CmpOp::Le => "<=",
+                CmpOp::Gt => ">",
+                CmpOp::Ge => ">=",
+            };
+            format!("{} {} {}", render_expr(a), o, render_expr(b))
+        }
+        Pred::IsNull(c) => format!("{} IS NULL", quote_ident(c)),
+        Pred::IsNotNull(c) => format!("{} IS NOT NULL", quote_ident(c)),
+        Pred::And(a, b) => format!("({} AND {})", render_pred(a), render_pred(b)),
+        Pred::Or(a, b) => format!("({} OR {})", render_pred(a), render_pred(b)),
+        Pred::Not(a) => format!("NOT ({})", render_pred(a)),
+    }
+}
+
+pub fn render(q: &mut QSpec) {
+    let items: Vec<String> = q
+        .select
+        .iter()
+        .map(|s| match s {
+            SelItem::E(e) => render_expr(e),
+            SelItem::Agg(f, e) => format!("{}({})", match f { AggFn::Count => "COUNT", AggFn::Sum => "SUM", AggFn::Min => "MIN", AggFn::Max => "MAX" }, render_expr(e)),
+        })
+        .collect();
+    let mut s = format!("SELECT {} FROM {}", items.join(", "), quote_ident(&q.table));
+    if let Some(f) = &q.filter {
+        s += &format!(" WHERE {}", render_pred(f));
+    }
+    if !q.order.is_empty() {
+        let keys: Vec<String> = q.order.iter().map(|(e, d)| format!("{}{}", render_expr(e), if *d { " DESC" } else { " ASC" })).collect();
+        s += &format!(" ORDER BY {}", keys.join(", "));
+    }
+    if let Some(l) = q.limit {
+        s += &format!(" LIMIT {l}");
+    }
+    if let Some(o) = q.offset {
+        s += &format!(" OFFSET {o}");
+    }
+    q.sql = s;
+}
+
+// ---------------------------------------------------------------------------------------------
+// evaluation
+// ---------------------------------------------------------------------------------------------
+
+#[derive(Debug, Clone, PartialEq)]
+pub enum EvalErr {
+    /// integer overflow or division by zero: the whole query must fail
+    Overflow,
+    /// outside the fragment whose semantics the properties state (not generated on purpose)
+    Unsupported(&'static str),
+}
+
+fn num(c: &Cell) -> Option<f64> {
+    match c {
+        Cell::I(i) => Some(*i as f64),
+        Cell::F(b) => Some(f64::from_bits(*b)),
+        _ => None,
+    }
+}
+
+pub fn eval_expr(e: &Expr, t: &MTable, row: usize) -> Result<Cell, EvalErr> {
+    let bin = |a: &Expr, b: &Expr, op: u8| -> Result<Cell, EvalErr> {
+        let x = eval_expr(a, t, row)?;
+        let y = eval_expr(b, t, row)?;
+        match (&x, &y) {
+            (Cell::N, _) | (_, Cell::N) => Ok(Cell::N),
+            (Cell::I(p), Cell::I(q)) => {
+                let (p, q) = (*p as i128, *q as i128);
+                let r = match op {
+                    0 => p + q,
+                    1 => p - q,
+                    2 => p * q,
+                    3 => {
+                        if q == 0 {
+                            return Err(EvalErr::Overflow);
+                        }
+                        p / q
+                    }
+                    _ => {
+                        if q == 0 {
+                            return Err(EvalErr::Overflow);
+                        }
+                        if q == -1 && p == i64::MIN as i128 {
+                            // (i64::MIN % -1 is 0 mathematically but traps in two's complement hardware)
+                            return Err(EvalErr::Unsupported("i64::MIN % -1"));
+                        }
+                        p % q
+                    }
+                };
+                // i64::MAX is the engine's NULL marker and not part of the value domain
+                if r == i64::MAX as i128 {
+                    Err(EvalErr::Unsupported("result is the reserved NULL marker"))
+                } else if r > i64::MAX as i128 || r < i64::MIN as i128 {
+                    Err(EvalErr::Overflow)
+                } else {
+                    Ok(Cell::I(r as i64))
+                }
+            }
+            (Cell::S(_), _) | (_, Cell::S(_)) => Err(EvalErr::Unsupported("arithmetic on strings")),
+            _ => {
+                let (p, q) = (num(&x).unwrap(), num(&y).unwrap());
+                let r = match op {
+                    0 => p + q,
+                    1 => p - q,
+                    2 => p * q,
+                    3 => p / q,
+                    _ => return Err(EvalErr::Unsupported("float modulo")),
+                };
+                Ok(Cell::f(r))
+            }
+        }
+    };
+    match e {
+        Expr::Col(c) => Ok(match t.col_index(c) {
+            Some(i) => t.cell(row, i).clone(),
+            None => Cell::N,
+        }),
+        Expr::I(i) => Ok(Cell::I(*i)),
+        Expr::F(b) => Ok(Cell::F(*b)),
+        Expr::S(s) => Ok(Cell::S(s.clone())),
+        Expr::Add(a, b) => bin(a, b, 0),
+        Expr::Sub(a, b) => bin(a, b, 1),
+        Expr::Mul(a, b) => bin(a, b, 2),
+        Expr::Div(a, b) => bin(a, b, 3),
+        Expr::Mod(a, b) => bin(a, b, 4),
+    }
+}
+
+/// total order used for ORDER BY and MIN/MAX on values of one type class (NULL handled by callers)
+pub fn cmp_cells(a: &Cell, b: &Cell) -> Option<Ordering> {
+    match (a, b) {
+        (Cell::I(x), Cell::I(y)) => Some(x.cmp(y)),
+        (Cell::S(x), Cell::S(y)) => Some(x.as_bytes().cmp(y.as_bytes())),
+        (Cell::N, _) | (_, Cell::N) => None,
+        (Cell::S(_), _) | (_, Cell::S(_)) => None,
+        _ => num(a).unwrap().partial_cmp(&num(b).unwrap()),
+    }
+}
+
+/// three-valued: Some(true) / Some(false) / None (unknown)
+pub fn eval_pred(p: &Pred, t: &MTable, row: usize) -> Result<Option<bool>, EvalErr> {
+    Ok(match p {
+        Pred::Cmp(op, a, b) => {
+            let x = eval_expr(a, t, row)?;
+            let y = eval_expr(b, t, row)?;
+            if x.is_null() || y.is_null() {
+                None
+            } else {
+                let o = cmp_cells(&x, &y).ok_or(EvalErr::Unsupported("comparison across types"))?;
+                Some(match op {
+                    CmpOp::Eq => o == Ordering::Equal,
+                    CmpOp::Ne => o != Ordering::Equal,
+                    CmpOp::Lt => o == Ordering::Less,
+                    CmpOp::Le => o != Ordering::Greater,
+                    CmpOp::Gt => o == Ordering::Greater,
+                    CmpOp::Ge => o != Ordering::Less,
+                })
+            }
+        }
+        Pred::IsNull(c) => Some(eval_expr(&Expr::Col(c.clone()), t, row)?.is_null()),
+        Pred::IsNotNull(c) => Some(!eval_expr(&Expr::Col(c.clone()), t, row)?.is_null()),
+        Pred::And(a, b) => match (eval_pred(a, t, row)?, eval_pred(b, t, row)?) {
+            (Some(false), _) | (_, Some(false)) => Some(false),
+            (Some(true), Some(true)) => Some(true),
+            _ => None,
+        },
+        Pred::Or(a, b) => match (eval_pred(a, t, row)?, eval_pred(b, t, row)?) {
+            (Some(true), _) | (_, Some(true)) => Some(true),
+            (Some(false), Some(false)) => Some(false),
+            _ => None,
+        },
+        Pred::Not(a) => eval_pred(a, t, row)?.map(|b| !b),
+    })
+}
+
+/// ORDER BY comparison: NULL after every value ascending, first descending
+fn cmp_key(a: &Cell, b: &Cell, desc: bool) -> Ordering {
+    let o = match (a.is_null(), b.is_null()) {
+        (true, true) => Ordering::Equal,
+        (true, false) => Ordering::Greater,
+        (false, true) => Ordering::Less,
+        _ => cmp_cells(a, b).unwrap_or(Ordering::Equal),
+    };
+    if desc {
+        o.reverse()
+    } else {
+        o
+    }
+}
+
+pub struct Expected {
+    /// rows in the required order (for ordered queries: one admissible order)
+    pub rows: Vec<Vec<Cell>>,
+    /// per row: the ORDER BY key tuple (ties may be permuted)
+    pub keys: Vec<Vec<Cell>>,
+    pub ordered_by_keys: bool,
+    pub is_aggregate: bool,
+    pub float_sum_cols: Vec<usize>,
+    /// all filtered rows (before LIMIT/OFFSET), with keys — to validate tie choices
+    pub all_rows: Vec<(Vec<Cell>, Vec<Cell>)>,
+    /// a SUM whose total fits i64 although partial sums in some order do not
+    pub may_overflow: bool,
+}
+
+pub fn evaluate(q: &QSpec, t: &MTable) -> Result<Expected, EvalErr> {
+    let n = t.rows.len();
+    let mut filtered: Vec<usize> = Vec::new();
+    for r in 0..n {
+        let keep = match &q.filter {
+            Some(p) => eval_pred(p, t, r)? == Some(true),
+            None => true,
+        };
+        if keep {
+            filtered.push(r);
+        }
+    }
+    let is_agg = q.select.iter().any(|s| matches!(s, SelItem::Agg(..)));
+    if !is_agg {
+        let mut rows: Vec<(Vec<Cell>, Vec<Cell>)> = Vec::new();
+        for r in &filtered {
+            let mut row = Vec::new();
+            for s in &q.select {
+                if let SelItem::E(e) = s {
+                    row.push(eval_expr(e, t, *r)?);
+                }
+            }
+            let mut key = Vec::new();
+            for (e, _) in &q.order {
+                key.push(eval_expr(e, t, *r)?);
+            }
+            rows.push((row, key));
+        }
+        if !q.order.is_empty() {
+            let order = q.order.clone();
+            rows.sort_by(|a, b| {
+                for (i, (_, d)) in order.iter().enumerate() {
+                    let o = cmp_key(&a.1[i], &b.1[i], *d);
+                    if o != Ordering::Equal {
+                        return o;
+                    }
+                }
+                Ordering::Equal
+            });
+        }
+        let all_rows = rows.clone();
+        let off = q.offset.unwrap_or(0) as usize;
+        let lim = q.limit.map(|l| l as usize).unwrap_or(usize::MAX);
+        let window: Vec<(Vec<Cell>, Vec<Cell>)> = rows.into_iter().skip(off).take(lim).collect();
+        return Ok(Expected { keys: window.iter().map(|r| r.1.clone()).collect(), rows: window.into_iter().map(|r| r.0).collect(), ordered_by_keys: !q.order.is_empty(), is_aggregate: false, float_sum_cols: vec![], all_rows, may_overflow: false });
+    }
+    // aggregate: group by the plain select items
+    #[derive(Clone)]
+    struct Acc {
+        count: i64,
+        pos: i128,
+        neg: i128,
+        isum: i128,
+        fsum: f64,
+        any_float: bool,
+        min: Option<Cell>,
+        max: Option<Cell>,
+    }
+    let mut groups: BTreeMap<Vec<Cell>, Vec<Acc>> = BTreeMap::new();
+    let nagg = q.select.iter().filter(|s| matches!(s, SelItem::Agg(..))).count();
+    for r in &filtered {
+        let mut key = Vec::new();
+        for s in &q.select {
+            if let SelItem::E(e) = s {
+                key.push(eval_expr(e, t, *r)?);
+            }
+        }
+        let accs = groups.entry(key).or_insert_with(|| vec![Acc { count: 0, pos: 0, neg: 0, isum: 0, fsum: 0.0, any_float: false, min: None, max: None }; nagg]);
+        let mut ai = 0;
+        for s in &q.select {
+            if let SelItem::Agg(_, e) = s {
+                let v = eval_expr(e, t, *r)?;
+                let a = &mut accs[ai];
+                ai += 1;
+                match &v {
+                    Cell::N => {}
+                    Cell::S(_) => return Err(EvalErr::Unsupported("aggregate over strings")),
+                    _ => {
+                        a.count += 1;
+                        match &v {
+                            Cell::I(i) => {
+                                a.isum += *i as i128;
+                                if *i > 0 {
+                                    a.pos += *i as i128;
+                                } else {
+                                    a.neg += *i as i128;
+                                }
+                                a.fsum += *i as f64;
+                            }
+                            Cell::F(b) => {
+                                a.any_float = true;
+                                a.fsum += f64::from_bits(*b);
+                            }
+                            _ => {}
+                        }
+                        if a.min.as_ref().map(|m| cmp_cells(&v, m) == Some(Ordering::Less)).unwrap_or(true) {
+                            a.min = Some(v.clone());
+                        }
+                        if a.max.as_ref().map(|m| cmp_cells(&v, m) == Some(Ordering::Greater)).unwrap_or(true) {
+                            a.max = Some(v.clone());
+                        }
+                    }
+                }
+            }
+        }
+    }
+    let mut rows = Vec::new();
+    let mut float_sum_cols = Vec::new();
+    let mut may_overflow = false;
+    for (key, accs) in groups {
+        let mut row = Vec::new();
+        let (mut ki, mut ai) = (0, 0);
+        for (ci, s) in q.select.iter().enumerate() {
+            match s {
+                SelItem::E(_) => {
+                    row.push(key[ki].clone());
+                    ki += 1;
+                }
+                SelItem::Agg(f, _) => {
+                    let a = &accs[ai];
+                    ai += 1;
+                    let c = if a.count == 0 {
+                        Cell::N
+                    } else {
+                        match f {
+                            AggFn::Count => Cell::I(a.count),
+                            AggFn::Sum => {
+                                if a.any_float {
+                                    if !float_sum_cols.contains(&ci) {
+                                        float_sum_cols.push(ci);
+                                    }
+                                    Cell::f(a.fsum)
+                                } else if a.isum == i64::MAX as i128 {
+                                    return Err(EvalErr::Unsupported("sum is the reserved NULL marker"));
+                                } else if a.isum > i64::MAX as i128 || a.isum < i64::MIN as i128 {
+                                    return Err(EvalErr::Overflow);
+                                } else {
+                                    if a.pos > (i64::MAX - 1) as i128 || a.neg < i64::MIN as i128 {
+                                        // the total fits but some order of adding the values does
+                                        // not: the exact value or an overflow error are both right
+                                        may_overflow = true;
+                                    }
+                                    Cell::I(a.isum as i64)
+                                }
+                            }
+                            AggFn::Min => a.min.clone().unwrap(),
+                            AggFn::Max => a.max.clone().unwrap(),
+                        }
+                    };
+                    row.push(c);
+                }
+            }
+        }
+        rows.push(row);
+    }
+    Ok(Expected { keys: vec![], rows, ordered_by_keys: false, is_aggregate: true, float_sum_cols, all_rows: vec![], may_overflow })
+}
+
+fn cells_equal(want: &Cell, got: &Cell, float_tol: bool) -> bool {
+    if want == got {
+        return true;
+    }
+    match (want, got) {
+        (Cell::F(a), Cell::F(b)) => {
+            let (x, y) = (f64::from_bits(*a), f64::from_bits(*b));
+            if x == y {
+                return true; // 0.0 == -0.0 after arithmetic
+            }
+            float_tol && (x - y).abs() <= 1e-9 * (x.abs() + y.abs() + 1.0)
+        }
+        // an integer-valued result may surface as float when the column mixes ints and floats
+        (Cell::I(a), Cell::F(b)) | (Cell::F(b), Cell::I(a)) => (*a as f64) == f64::from_bits(*b),
+        _ => false,
+    }
+}
+
+fn rows_equal(want: &[Cell], got: &[Cell], float_cols: &[usize]) -> bool {
+    want.len() == got.len() && want.iter().zip(got.iter()).enumerate().all(|(i, (w, g))| cells_equal(w, g, float_cols.contains(&i)))
+}
+
+/// Compare the engine's answer with the reference. Returns None if they agree.
+pub fn compare(q: &QSpec, exp: &Result<Expected, EvalErr>, got: &Result<QOut, QErr>) -> Option<(String, String)> {
+    match (exp, got) {
+        (Err(EvalErr::Unsupported(_)), _) => None,
+        (Err(EvalErr::Overflow), Err(_)) => None,
+        (Err(EvalErr::Overflow), Ok(o)) => Some(("arith:overflow_not_reported".into(), format!("exact evaluation overflows i64 (or divides by zero) but the query returned {} row(s), first: {:?}", o.rows.len(), o.rows.first().map(|r| r.iter().map(|c| c.short()).collect::<Vec<_>>())))),
+        (Ok(x), Err(e)) if x.may_overflow && e.kind() == "Overflow" => None,
+        (Ok(_), Err(e)) => Some((format!("query_failed:{}:{}", e.kind(), stem(&e.msg())), format!("the query failed with {}: {}", e.kind(), e.msg()))),
+        (Ok(exp), Ok(o)) => {
+            if exp.is_aggregate {
+                // multiset of rows
+                let mut want = exp.rows.clone();
+                let mut have = o.rows.clone();
+                want.sort();
+                have.sort();
+                if want.len() != have.len() {
+                    return Some((if have.len() > want.len() { "agg:extra_groups".into() } else { "agg:missing_groups".to_string() }, format!("{} group row(s) returned, {} expected; got {:?}, expected {:?}", have.len(), want.len(), short_rows(&have), short_rows(&want))));
+                }
+                // match greedily with tolerance on float sums
+                let mut used = vec![false; have.len()];
+                for w in &want {
+                    match (0..have.len()).find(|i| !used[*i] && rows_equal(w, &have[*i], &exp.float_sum_cols)) {
+                        Some(i) => used[i] = true,
+                        None => return Some(("agg:wrong_value".into(), format!("no returned row matches expected group row {:?}; returned {:?}", w.iter().map(|c| c.short()).collect::<Vec<_>>(), short_rows(&have)))),
+                    }
+                }
+                None
+            } else if !exp.ordered_by_keys {
+                if o.rows.len() != exp.rows.len() {
+                    return Some((if o.rows.len() < exp.rows.len() { "rows:missing".into() } else { "rows:extra".to_string() }, format!("{} rows returned, {} expected", o.rows.len(), exp.rows.len())));
+                }
+                for (i, w) in exp.rows.iter().enumerate() {
+                    if !rows_equal(w, &o.rows[i], &[]) {
+                        return Some(("rows:wrong_row".into(), format!("row {i}: got {:?}, expected {:?}", o.rows[i].iter().map(|c| c.short()).collect::<Vec<_>>(), w.iter().map(|c| c.short()).collect::<Vec<_>>())));
+                    }
+                }
+                None
+            } else {
+                // ordered: the id is the last select item (unique), keys decide positions
+                if o.rows.len() != exp.rows.len() {
+                    return Some((if o.rows.len() < exp.rows.len() { "order:too_few_rows".into() } else { "order:too_many_rows".to_string() }, format!("{} rows returned, {} expected (limit {:?} offset {:?} of {} filtered rows)", o.rows.len(), exp.rows.len(), q.limit, q.offset, exp.all_rows.len())));
+                }
+                let by_id: BTreeMap<Cell, &(Vec<Cell>, Vec<Cell>)> = exp.all_rows.iter().map(|r| (r.0.last().cloned().unwrap_or(Cell::N), r)).collect();
+                let mut seen = std::collections::BTreeSet::new();
+                for (i, row) in o.rows.iter().enumerate() {
+                    let id = row.last().cloned().unwrap_or(Cell::N);
+                    let src = match by_id.get(&id) {
+                        Some(s) => s,
+                        None => return Some(("order:unknown_row".into(), format!("row {i} {:?} is not a row of the filtered table", row.iter().map(|c| c.short()).collect::<Vec<_>>()))),
+                    };
+                    if !seen.insert(id.clone()) {
+                        return Some(("order:row_twice".into(), format!("row with id {} returned twice", id.short())));
+                    }
+                    if !rows_equal(&src.0, row, &[]) {
+                        return Some(("order:wrong_cells".into(), format!("row {i}: got {:?}, the table row with that id is {:?}", row.iter().map(|c| c.short()).collect::<Vec<_>>(), src.0.iter().map(|c| c.short()).collect::<Vec<_>>())));
+                    }
+                    // its key must be the key required at this position
+                    let want_key = &exp.keys[i];
+                    if !rows_equal(want_key, &src.1, &[]) {
+                        return Some(("order:wrong_position".into(), format!("position {i}: row id {} has sort key {:?} but the key required there is {:?}", id.short(), src.1.iter().map(|c| c.short()).collect::<Vec<_>>(), want_key.iter().map(|c| c.short()).collect::<Vec<_>>())));
+                    }
+                }
+                None
+            }
+        }
+    }
+}
+
+fn short_rows(rows: &[Vec<Cell>]) -> Vec<Vec<String>> {
+    rows.iter().take(8).map(|r| r.iter().map(|c| c.short()).collect()).collect()
+}
+
+pub fn exec_query(env: &mut Env, q: &QSpec, ctx: &str) {
+    let t = match env.model.tables.get(&q.table) {
+        Some(t) => t.clone(),
+        None => return,
+    };
+    let exp = evaluate(q, &t);
+    let got = env.query(&q.sql);
+    if env.query_log.len() < 256 {
+        env.query_log.push((q.sql.clone(), got.clone()));
+    }
+    if let Ok(o) = &got {
+        crate::exec_more::check_wellformed(env, &q.sql, &Ok(o.clone()), ctx);
+    }
+    match &exp {
+        Err(EvalErr::Unsupported(_)) => env.count("queries_outside_fragment"),
+        Err(EvalErr::Overflow) => env.count("queries_expected_to_overflow"),
+        Ok(e) if e.is_aggregate => env.count("queries_aggregate"),
+        Ok(e) if e.ordered_by_keys => env.count("queries_ordered"),
+        Ok(_) => env.count("queries_plain"),
+    }
+    if let Some((class, detail)) = compare(q, &exp, &got) {
+        // the class names the query shape, so that an open finding about one shape (say OR over a
+        // nullable column) does not hide a defect in another
+        let class = class.replace("Some assumption was violated. This is a", "").replace("Type error: ", "");
+        let mut feats = features(q, &t);
+        let mut cols = Vec::new();
+        query_cols(q, &mut cols);
+        if cols.iter().any(|c| env.null_typed.contains(&(q.table.clone(), c.clone())) || t.col_index(c).is_none()) {
+            feats = format!("null_typed_partition+{feats}");
+        }
+        env.violate(&format!("query|{}|{class}", dominant_feature(&feats)), format!("[{ctx}] {} :: {detail} (shape: {feats})", q.sql));
+    } else {
+        env.count("queries_matched");
+    }
+}
+
+// ---------------------------------------------------------------------------------------------
+// generation
+// ---------------------------------------------------------------------------------------------
+
+/// Column roles of the query tables (see props::query_schema)
+pub struct QCols {
+    pub ints: Vec<String>,
+    pub floats: Vec<String>,
+    pub strs: Vec<String>,
+}
+
+impl QCols {
+    pub fn clone_cols(&self) -> QCols {
+        QCols { ints: self.ints.clone(), floats: self.floats.clone(), strs: self.strs.clone() }
+    }
+    pub fn is_empty(&self) -> bool {
+        self.ints.is_empty() && self.floats.is_empty() && self.strs.is_empty()
+    }
+}
+
+fn col_values(t: &MTable, c: &str) -> Vec<Cell> {
+    t.column(c).into_iter().filter(|x| !x.is_null()).collect()
+}
+
+/// a constant relative to the column's actual values: inside, at the edges, just outside, far outside
+fn int_const(rng: &mut Rng, t: &MTable, c: &str) -> i64 {
+    let vals: Vec<i64> = col_values(t, c).iter().filter_map(|x| if let Cell::I(i) = x { Some(*i) } else { None }).collect();
+    if vals.is_empty() {
+        return rng.range(-3, 3);
+    }
+    let (mn, mx) = (*vals.iter().min().unwrap(), *vals.iter().max().unwrap());
+    let k = int_const_raw(rng, &vals, mn, mx);
+    // (the literal -9223372036854775808 is read as a float by the parser)
+    k.max(i64::MIN + 1)
+}
+
+fn int_const_raw(rng: &mut Rng, vals: &[i64], mn: i64, mx: i64) -> i64 {
+    match rng.below(10) {
+        0 => mn,
+        1 => mx,
+        2 => mn.saturating_sub(1),
+        3 => mx.saturating_add(1).min(i64::MAX - 1),
+        4 => *rng.pick(&[-1i64, 0, 255, 256, 65535, 65536, 4294967295, 4294967296]),
+        5 => mn.saturating_sub(70000),
+        6 => mx.saturating_add(5_000_000_000).min(i64::MAX - 1),
+        _ => *rng.pick(vals),
+    }
+}
+
+fn float_const(rng: &mut Rng, t: &MTable, c: &str) -> u64 {
+    let vals: Vec<f64> = col_values(t, c).iter().filter_map(|x| x.as_f64()).collect();
+    if vals.is_empty() {
+        return (rng.range(-8, 8) as f64 / 4.0).to_bits();
+    }
+    let v = *rng.pick(&vals);
+    match rng.below(4) {
+        0 => v.to_bits(),
+        1 => (v + 0.25).to_bits(),
+        2 => (v - 0.25).to_bits(),
+        _ => (rng.range(-4000, 4000) as f64 / 8.0).to_bits(),
+    }
+}
+
+fn str_const(rng: &mut Rng, t: &MTable, c: &str) -> String {
+    let vals: Vec<String> = col_values(t, c).iter().filter_map(|x| if let Cell::S(s) = x { Some(s.clone()) } else { None }).collect();
+    if vals.is_empty() || rng.below(4) == 0 {
+        return rng.pick(&["", "a", "k", "k1", "k11", "zzz", "K1", "k 1"]).to_string();
+    }
+    let v = rng.pick(&vals).clone();
+    match rng.below(4) {
+        0 => format!("{v}x"),
+        1 if !v.is_empty() => {
+            let mut cs: Vec<char> = v.chars().collect();
+            cs.pop();
+            cs.into_iter().collect()
+        }
+        _ => v,
+    }
+}
+
+fn cmp_op(rng: &mut Rng) -> CmpOp {
+    *rng.pick(&[CmpOp::Eq, CmpOp::Ne, CmpOp::Lt, CmpOp::Le, CmpOp::Gt, CmpOp::Ge])
+}
+
+/// columns of `cols` that hold no NULL anywhere in the table
+fn non_null_cols(t: &MTable, cols: &QCols) -> QCols {
+    let ok = |c: &String| t.col_index(c).is_some() && !t.column(c).iter().any(|x| x.is_null());
+    QCols { ints: cols.ints.iter().filter(|c| ok(c)).cloned().collect(), floats: cols.floats.iter().filter(|c| ok(c)).cloned().collect(), strs: cols.strs.iter().filter(|c| ok(c)).cloned().collect() }
+}
+
+fn gen_leaf(rng: &mut Rng, t: &MTable, cols: &QCols, allow_is_null: bool) -> Pred {
+    for _ in 0..8 {
+        match rng.below(10) {
+            0..=3 if !cols.ints.is_empty() => {
+                let c = rng.pick(&cols.ints).clone();
+                if crate::gen::spicy() && rng.below(6) == 0 && cols.ints.len() > 1 {
+                    let d = rng.pick(&cols.ints).clone();
+                    return Pred::Cmp(cmp_op(rng), Expr::Col(c), Expr::Col(d));
+                }
+                let k = int_const(rng, t, &c);
+                return Pred::Cmp(cmp_op(rng), Expr::Col(c), Expr::I(k));
+            }
+            4..=5 if !cols.floats.is_empty() => {
+                let c = rng.pick(&cols.floats).clone();
+                let k = float_const(rng, t, &c);
+                return Pred::Cmp(cmp_op(rng), Expr::Col(c), Expr::F(k));
+            }
+            6..=7 if !cols.strs.is_empty() => {
+                let c = rng.pick(&cols.strs).clone();
+                let k = str_const(rng, t, &c);
+                // (ordering comparisons on strings: spicy plans only, see known findings)
+                let op = if crate::gen::spicy() { cmp_op(rng) } else { *rng.pick(&[CmpOp::Eq, CmpOp::Ne]) };
+                return Pred::Cmp(op, Expr::Col(c), Expr::S(k));
+            }
+            8..=9 if allow_is_null => {
+                let all: Vec<&String> = cols.ints.iter().chain(cols.floats.iter()).chain(cols.strs.iter()).collect();
+                if all.is_empty() {
+                    continue;
+                }
+                let c = (*rng.pick(&all)).clone();
+                return if rng.below(2) == 0 { Pred::IsNull(c) } else { Pred::IsNotNull(c) };
+            }
+            _ => {}
+        }
+    }
+    Pred::Cmp(CmpOp::Ge, Expr::Col("id".into()), Expr::I(0))
+}
+
+fn gen_tree(rng: &mut Rng, t: &MTable, cols: &QCols, depth: u32) -> Pred {
+    if depth == 0 || rng.below(3) == 0 {
+        return gen_leaf(rng, t, cols, false);
+    }
+    let a = gen_tree(rng, t, cols, depth - 1);
+    let b = gen_tree(rng, t, cols, depth - 1);
+    match rng.below(5) {
+        0..=1 => Pred::And(Box::new(a), Box::new(b)),
+        2..=3 => Pred::Or(Box::new(a), Box::new(b)),
+        _ => Pred::Not(Box::new(a)),
+    }
+}
+
+/// Predicates. Spicy plans draw arbitrary AND/OR/NOT trees over all columns. Mild plans keep OR and
+/// NOT away from columns that hold NULLs (the engine mishandles those, see known findings): a
+/// conjunction of leaves over any column and of OR/NOT trees over NULL-free columns.
+pub fn gen_pred(rng: &mut Rng, t: &MTable, cols: &QCols, depth: u32) -> Pred {
+    if crate::gen::spicy() {
+        let all = QCols { ints: cols.ints.clone(), floats: cols.floats.clone(), strs: cols.strs.clone() };
+        if depth == 0 {
+            return gen_leaf(rng, t, &all, true);
+        }
+        let a = gen_pred(rng, t, cols, depth - 1);
+        let b = gen_pred(rng, t, cols, depth - 1);
+        return match rng.below(5) {
+            0..=1 => Pred::And(Box::new(a), Box::new(b)),
+            2..=3 => Pred::Or(Box::new(a), Box::new(b)),
+            _ => Pred::Not(Box::new(a)),
+        };
+    }
+    // Mild: the engine's three-valued logic is only dependable for a single comparison on a
+    // nullable column (see known findings), so: an AND/OR/NOT tree over NULL-free columns, and at
+    // most one leaf on a nullable column as a top-level conjunct.
+    // ... and at most one comparison with a string constant (two make the executor fail, see
+    // known findings `str_const_leaves2`).
+    let mut p = gen_pred_mild(rng, t, cols, depth);
+    for _ in 0..8 {
+        if str_const_leaves(&p) < 2 {
+            break;
+        }
+        p = gen_pred_mild(rng, t, cols, depth);
+    }
+    if str_const_leaves(&p) >= 2 {
+        let ints = QCols { ints: vec!["id".to_string()], floats: vec![], strs: vec![] };
+        p = gen_leaf(rng, t, &ints, true);
+    }
+    p
+}
+
+pub fn str_const_leaves(p: &Pred) -> usize {
+    match p {
+        Pred::And(a, b) | Pred::Or(a, b) => str_const_leaves(a) + str_const_leaves(b),
+        Pred::Not(a) => str_const_leaves(a),
+        Pred::Cmp(_, a, b) => (matches!(a, Expr::S(_)) || matches!(b, Expr::S(_))) as usize,
+        _ => 0,
+    }
+}
+
+fn gen_pred_mild(rng: &mut Rng, t: &MTable, cols: &QCols, depth: u32) -> Pred {
+    let nn = non_null_cols(t, cols);
+    let mut p = if nn.is_empty() { gen_leaf(rng, t, cols, true) } else { gen_tree(rng, t, &nn, depth) };
+    if rng.below(2) == 0 {
+        let nullable = QCols {
+            ints: cols.ints.iter().filter(|c| !nn.ints.contains(c)).cloned().collect(),
+            floats: cols.floats.iter().filter(|c| !nn.floats.contains(c)).cloned().collect(),
+            strs: cols.strs.iter().filter(|c| !nn.strs.contains(c)).cloned().collect(),
+        };
+        if !nullable.is_empty() {
+            let leaf = gen_leaf(rng, t, &nullable, true);
+            p = if rng.below(3) == 0 && depth == 0 { leaf } else { Pred::And(Box::new(p), Box::new(leaf)) };
+        }
+    }
+    p
+}
+
+pub fn gen_int_expr(rng: &mut Rng, t: &MTable, cols: &QCols, depth: u32, edgy: bool) -> Expr {
+    let spicy = crate::gen::spicy();
+    let pool: Vec<String> = if spicy { cols.ints.clone() } else { non_null_cols(t, cols).ints };
+    let pool = if pool.is_empty() { vec!["id".to_string()] } else { pool };
+    let konst = |rng: &mut Rng| {
+        let k = if edgy { *rng.pick(&[0i64, 1, -1, 2, 255, 256, 65536, 4294967296, i64::MAX - 1, i64::MIN + 1, 4611686018427387904, -4611686018427387904, 3037000500]) } else { rng.range(-20, 20) };
+        Expr::I(k)
+    };
+    if depth == 0 {
+        return Expr::Col(rng.pick(&pool).clone());
+    }
+    // (a subtree made of constants only trips the planner's constant folding, see known
+    // findings: mild plans keep a column in every operand pair)
+    let a = Box::new(gen_int_expr(rng, t, cols, depth - 1, edgy));
+    let b = if rng.below(2) == 0 { Box::new(konst(rng)) } else { Box::new(gen_int_expr(rng, t, cols, depth - 1, edgy)) };
+    let (a, b) = if spicy && rng.below(4) == 0 { (Box::new(konst(rng)), b) } else if rng.below(3) == 0 { (b, a) } else { (a, b) };
+    match rng.below(6) {
+        0..=1 => Expr::Add(a, b),
+        2 => Expr::Sub(a, b),
+        3 => Expr::Mul(a, b),
+        4 => Expr::Div(a, b),
+        _ => Expr::Mod(a, b),
+    }
+}
+
+#[derive(Clone, Copy, PartialEq, Eq, Debug)]
+pub enum QKind {
+    Filter,
+    Order,
+    Arith,
+    Agg,
+    SumOverflow,
+}
+
+pub fn gen_query(rng: &mut Rng, table: &str, t: &MTable, cols: &QCols, kind: QKind) -> QSpec {
+    let mut q = QSpec { table: table.to_string(), select: vec![], filter: None, order: vec![], limit: None, offset: None, sql: String::new() };
+    let id = Expr::Col("id".into());
+    let n = t.rows.len() as u64;
+    let spicy = crate::gen::spicy();
+    let nn = non_null_cols(t, cols);
+    match kind {
+        QKind::Filter => {
+            let d = rng.below(4) as u32;
+            q.filter = Some(gen_pred(rng, t, cols, d));
+            if rng.below(3) == 0 {
+                let all: Vec<&String> = cols.ints.iter().chain(cols.floats.iter()).chain(cols.strs.iter()).collect();
+                q.select.push(SelItem::E(Expr::Col((*rng.pick(&all)).clone())));
+            }
+            q.select.push(SelItem::E(id));
+        }
+        QKind::Order => {
+            if rng.below(2) == 0 {
+                q.filter = Some(gen_pred(rng, t, cols, 1));
+            }
+            let pool = if spicy { cols.clone_cols() } else { nn.clone_cols() };
+            let all: Vec<&String> = pool.ints.iter().chain(pool.floats.iter()).chain(pool.strs.iter()).collect();
+            let nk = 1 + rng.below(3);
+            for _ in 0..nk {
+                let c = (*rng.pick(&all)).clone();
+                let e = if cols.ints.contains(&c) && rng.below(5) == 0 { Expr::Add(Box::new(Expr::Col(c.clone())), Box::new(Expr::I(rng.range(-3, 3)))) } else { Expr::Col(c.clone()) };
+                q.order.push((e, rng.below(2) == 0));
+                if !q.select.contains(&SelItem::E(Expr::Col(c.clone()))) {
+                    q.select.push(SelItem::E(Expr::Col(c)));
+                }
+            }
+            q.select.push(SelItem::E(id));
+            // limits / offsets in 0..n+2, around half the table and partition sizes
+            if rng.below(5) != 0 {
+                q.limit = Some(match rng.below(6) {
+                    0 => 0,
+                    1 => 1,
+                    2 => n / 2,
+                    3 => n / 2 + 1,
+                    4 => n + 2,
+                    _ => rng.below(n + 3),
+                });
+            }
+            if rng.below(2) == 0 && q.limit.is_some() {
+                q.offset = Some(match rng.below(5) {
+                    0 => 0,
+                    1 => 1,
+                    2 => n,
+                    3 => n + 2,
+                    _ => rng.below(n + 3),
+                });
+            }
+        }
+        QKind::Arith => {
+            let edgy = rng.below(2) == 0;
+            let d = 1 + rng.below(3) as u32;
+            q.select.push(SelItem::E(gen_int_expr(rng, t, cols, d, edgy)));
+            q.select.push(SelItem::E(id));
+            if rng.below(3) == 0 {
+                q.filter = Some(gen_pred(rng, t, cols, 1));
+            }
+        }
+        QKind::Agg | QKind::SumOverflow => {
+            let ng = if kind == QKind::SumOverflow { rng.below(2) } else if spicy { rng.below(4) } else { rng.below(2) };
+            // mild: group by at most one NULL-free int / string column
+            // (grouping by wide integers — i2 in the C06 tables — trips open findings: mild plans group by g / strings)
+            let gpool = if spicy { cols.clone_cols() } else { QCols { ints: nn.ints.iter().filter(|c| *c == "g").cloned().collect(), floats: vec![], strs: nn.strs.clone() } };
+            let all: Vec<&String> = gpool.ints.iter().chain(gpool.floats.iter()).chain(gpool.strs.iter()).collect();
+            for _ in 0..(if all.is_empty() { 0 } else { ng }) {
+                let c = (*rng.pick(&all)).clone();
+                let e = if spicy && cols.ints.contains(&c) && rng.below(4) == 0 { Expr::Div(Box::new(Expr::Col(c)), Box::new(Expr::I(*rng.pick(&[2i64, 3, 5, 100])))) } else { Expr::Col(c) };
+                if !q.select.contains(&SelItem::E(e.clone())) {
+                    q.select.push(SelItem::E(e));
+                }
+            }
+            let na = 1 + rng.below(3);
+            for _ in 0..na {
+                let f = if kind == QKind::SumOverflow { AggFn::Sum } else { *rng.pick(&[AggFn::Count, AggFn::Sum, AggFn::Min, AggFn::Max]) };
+                let apool = if spicy { cols.clone_cols() } else { QCols { ints: nn.ints.clone(), floats: vec![], strs: vec![] } };
+                let numeric: Vec<&String> = apool.ints.iter().chain(apool.floats.iter()).collect();
+                let arg = if f == AggFn::Count && rng.below(2) == 0 {
+                    Expr::I(1)
+                } else if kind == QKind::SumOverflow {
+                    Expr::Col(rng.pick(&apool.ints).clone())
+                } else {
+                    Expr::Col((*rng.pick(&numeric)).clone())
+                };
+                // (aggregating the grouping column itself trips an open finding)
+                if !spicy && q.select.contains(&SelItem::E(arg.clone())) {
+                    continue;
+                }
+                q.select.push(SelItem::Agg(f, arg));
+            }
+            if rng.below(3) == 0 {
+                q.filter = Some(gen_pred(rng, t, cols, 1));
+            }
+        }
+    }
+    render(&mut q);
+    q
+}
+
+
+/// C02: the same query on two physical realisations of one logical table gives the same answer
+/// (row order matters only for non-aggregate queries; float sums up to rounding).
+pub fn differential(a: &[(String, Result<QOut, QErr>)], b: &[(String, Result<QOut, QErr>)]) -> Option<Violation> {
+    for ((sa, ra), (sb, rb)) in a.iter().zip(b.iter()) {
+        if sa.split(" FROM ").next() != sb.split(" FROM ").next() {
+            continue;
+        }
+        let is_agg = ["COUNT(", "SUM(", "MIN(", "MAX("].iter().any(|f| sa.contains(f));
+        let has_order = sa.contains(" ORDER BY ");
+        match (ra, rb) {
+            (Ok(x), Ok(y)) => {
+                let (mut rx, mut ry) = (x.rows.clone(), y.rows.clone());
+                if is_agg || has_order {
+                    // order of groups / of tied rows is free
+                    rx.sort();
+                    ry.sort();
+                }
+                let same = rx.len() == ry.len() && rx.iter().zip(ry.iter()).all(|(p, q)| p.len() == q.len() && p.iter().zip(q.iter()).all(|(c, d)| cells_equal(c, d, is_agg)));
+                if !same && !(has_order && (sa.contains(" LIMIT ") || sa.contains(" OFFSET "))) {
+                    return Some(Violation { class: "differential:results_differ".into(), detail: format!("{sa}: realisation A returned {:?}, realisation B {:?}", short_rows(&rx), short_rows(&ry)) });
+                }
+            }
+            (Err(_), Err(_)) => {}
+            (Ok(x), Err(e)) | (Err(e), Ok(x)) => {
+                return Some(Violation { class: format!("differential:one_fails:{}", e.kind()), detail: format!("{sa}: one realisation answers ({} rows), the other fails with {}: {}", x.rows.len(), e.kind(), e.msg()) });
+            }
+        }
+    }
+    None
+}
+
+
+/// Shape signature of a query: which of the constructs with their own semantics it uses.
+pub fn features(q: &QSpec, t: &MTable) -> String {
+    let nullable = |c: &str| t.col_index(c).is_none() || t.column(c).iter().any(|x| x.is_null());
+    fn expr_cols(e: &Expr, out: &mut Vec<String>) {
+        match e {
+            Expr::Col(c) => out.push(c.clone()),
+            Expr::Add(a, b) | Expr::Sub(a, b) | Expr::Mul(a, b) | Expr::Div(a, b) | Expr::Mod(a, b) => {
+                expr_cols(a, out);
+                expr_cols(b, out);
+            }
+            _ => {}
+        }
+    }
+    fn pred_cols(p: &Pred, out: &mut Vec<String>) {
+        match p {
+            Pred::Cmp(_, a, b) => {
+                expr_cols(a, out);
+                expr_cols(b, out);
+            }
+            Pred::IsNull(c) | Pred::IsNotNull(c) => out.push(c.clone()),
+            Pred::And(a, b) | Pred::Or(a, b) => {
+                pred_cols(a, out);
+                pred_cols(b, out);
+            }
+            Pred::Not(a) => pred_cols(a, out),
+        }
+    }
+    let mut f: std::collections::BTreeSet<&'static str> = std::collections::BTreeSet::new();
+    fn walk(p: &Pred, nullable: &dyn Fn(&str) -> bool, f: &mut std::collections::BTreeSet<&'static str>, under_or: bool, under_not: bool) {
+        match p {
+            Pred::Cmp(op, a, b) => {
+                let mut cs = Vec::new();
+                expr_cols(a, &mut cs);
+                expr_cols(b, &mut cs);
+                let any_null = cs.iter().any(|c| nullable(c));
+                if any_null && under_or {
+                    f.insert("nullable_under_or");
+                }
+                if any_null && under_not {
+                    f.insert("nullable_under_not");
+                }
+                if matches!(b, Expr::S(_)) {
+                    f.insert(if matches!(op, CmpOp::Eq | CmpOp::Ne) { "str_eq" } else { "str_order" });
+                }
+                if matches!(b, Expr::Col(_)) {
+                    f.insert("col_col");
+                }
+                if matches!(b, Expr::F(_)) {
+                    f.insert("float_cmp");
+                }
+                if any_null {
+                    f.insert("nullable_cmp");
+                }
+            }
+            Pred::IsNull(c) | Pred::IsNotNull(c) => {
+                f.insert("is_null");
+                if under_or {
+                    f.insert("is_null_under_or");
+                }
+                if under_not {
+                    f.insert("is_null_under_not");
+                }
+                let _ = c;
+            }
+            Pred::And(a, b) => {
+                f.insert("and");
+                walk(a, nullable, f, under_or, under_not);
+                walk(b, nullable, f, under_or, under_not);
+            }
+            Pred::Or(a, b) => {
+                f.insert("or");
+                walk(a, nullable, f, true, under_not);
+                walk(b, nullable, f, true, under_not);
+            }
+            Pred::Not(a) => {
+                f.insert("not");
+                walk(a, nullable, f, under_or, true);
+            }
+        }
+    }
+    if let Some(p) = &q.filter {
+        walk(p, &nullable, &mut f, false, false);
+        // leaves on nullable columns / string constants the column does not hold
+        fn leaves<'a>(p: &'a Pred, out: &mut Vec<&'a Pred>) {
+            match p {
+                Pred::And(a, b) | Pred::Or(a, b) => {
+                    leaves(a, out);
+                    leaves(b, out);
+                }
+                Pred::Not(a) => leaves(a, out),
+                l => out.push(l),
+            }
+        }
+        let mut ls = Vec::new();
+        leaves(p, &mut ls);
+        let mut nullable_leaves = 0;
+        let absent_consts = str_const_leaves(p);
+        for l in ls {
+            match l {
+                Pred::Cmp(_, a, b) => {
+                    let mut cs = Vec::new();
+                    expr_cols(a, &mut cs);
+                    expr_cols(b, &mut cs);
+                    if cs.iter().any(|c| nullable(c)) {
+                        nullable_leaves += 1;
+                    }
+                }
+                Pred::IsNull(c) | Pred::IsNotNull(c) => {
+                    if nullable(c) {
+                        nullable_leaves += 1;
+                    }
+                }
+                _ => {}
+            }
+        }
+        if nullable_leaves >= 2 {
+            f.insert("nullable_leaves2");
+        }
+        if absent_consts >= 2 {
+            f.insert("str_const_leaves2");
+        }
+    }
+    fn has_const_only_subtree(e: &Expr) -> bool {
+        fn cols_in(e: &Expr) -> usize {
+            match e {
+                Expr::Col(_) => 1,
+                Expr::Add(a, b) | Expr::Sub(a, b) | Expr::Mul(a, b) | Expr::Div(a, b) | Expr::Mod(a, b) => cols_in(a) + cols_in(b),
+                _ => 0,
+            }
+        }
+        match e {
+            Expr::Add(a, b) | Expr::Sub(a, b) | Expr::Mul(a, b) | Expr::Div(a, b) | Expr::Mod(a, b) => (cols_in(a) == 0 && cols_in(b) == 0) || has_const_only_subtree(a) || has_const_only_subtree(b),
+            Expr::Col(_) => false,
+            // a bare constant as a select item / sort key
+            _ => false,
+        }
+    }
+    for s in &q.select {
+        match s {
+            SelItem::E(e) => {
+                if matches!(e, Expr::I(_) | Expr::F(_) | Expr::S(_)) || has_const_only_subtree(e) {
+                    f.insert("const_expr");
+                }
+                if !matches!(e, Expr::Col(_)) {
+                    f.insert("select_expr");
+                    let mut cs = Vec::new();
+                    expr_cols(e, &mut cs);
+                    if cs.iter().any(|c| nullable(c)) {
+                        f.insert("arith_nullable");
+                    }
+                }
+            }
+            SelItem::Agg(a, e) => {
+                if q.select.contains(&SelItem::E(e.clone())) {
+                    f.insert("agg_on_group_col");
+                }
+                f.insert(match a {
+                    AggFn::Count => "count",
+                    AggFn::Sum => "sum",
+                    AggFn::Min => "min",
+                    AggFn::Max => "max",
+                });
+                let mut cs = Vec::new();
+                expr_cols(e, &mut cs);
+                if cs.iter().any(|c| nullable(c)) {
+                    f.insert("agg_nullable");
+                }
+                if cs.iter().any(|c| t.col_index(c).map(|i| t.type_mix(i).1).unwrap_or(false)) {
+                    f.insert("agg_float");
+                }
+            }
+        }
+    }
+    let is_agg = q.select.iter().any(|s| matches!(s, SelItem::Agg(..)));
+    if is_agg && sum_partial_hits_marker(q, t) {
+        f.insert("sum_partial_is_null_marker");
+    }
+    if is_agg {
+        let ng = q.select.iter().filter(|s| matches!(s, SelItem::E(_))).count();
+        f.insert(match ng {
+            0 => "group0",
+            1 => "group1",
+            _ => "groupN",
+        });
+        for s in &q.select {
+            if let SelItem::E(e) = s {
+                let mut cs = Vec::new();
+                expr_cols(e, &mut cs);
+                if cs.iter().any(|c| nullable(c)) {
+                    f.insert("group_nullable");
+                }
+                if cs.iter().any(|c| t.col_index(c).map(|i| t.type_mix(i).2).unwrap_or(false)) {
+                    f.insert("group_str");
+                }
+                if cs.iter().any(|c| t.col_index(c).map(|i| t.type_mix(i).1).unwrap_or(false)) {
+                    f.insert("group_float");
+                }
+            }
+        }
+    }
+    if !q.order.is_empty() {
+        f.insert(if q.order.len() == 1 { "order1" } else { "orderN" });
+        for (e, d) in &q.order {
+            let mut cs = Vec::new();
+            expr_cols(e, &mut cs);
+            if cs.iter().any(|c| nullable(c)) {
+                f.insert("order_nullable");
+            }
+            if *d {
+                f.insert("desc");
+            }
+            if !matches!(e, Expr::Col(_)) {
+                f.insert("order_expr");
+            }
+        }
+    }
+    if q.limit.is_some() {
+        f.insert("limit");
+    }
+    if q.offset.is_some() {
+        f.insert("offset");
+    }
+    if q.filter.is_some() && (is_agg || !q.order.is_empty()) {
+        f.insert("filtered");
+    }
+    f.into_iter().collect::<Vec<_>>().join("+")
+}
+
+
+/// SUM is computed per partition and the partial sums are merged. A partition holds a contiguous
+/// range of rows, so the partial sum of a group is the sum of a contiguous run of the group's
+/// qualifying values: true if some such run (not the whole sum) adds up to exactly i64::MAX, the
+/// engine's in-band NULL marker for integers.
+fn sum_partial_hits_marker(q: &QSpec, t: &MTable) -> bool {
+    let group_exprs: Vec<&Expr> = q.select.iter().filter_map(|s| if let SelItem::E(e) = s { Some(e) } else { None }).collect();
+    for s in &q.select {
+        let SelItem::Agg(AggFn::Sum, e) = s else { continue };
+        let mut groups: std::collections::BTreeMap<String, Vec<i128>> = Default::default();
+        for row in 0..t.rows.len() {
+            if let Some(p) = &q.filter {
+                if !matches!(eval_pred(p, t, row), Ok(Some(true))) {
+                    continue;
+                }
+            }
+            let key: String = group_exprs.iter().map(|g| eval_expr(g, t, row).map(|c| c.short()).unwrap_or_default()).collect::<Vec<_>>().join("\u{1}");
+            if let Ok(Cell::I(v)) = eval_expr(e, t, row) {
+                groups.entry(key).or_default().push(v as i128);
+            }
+        }
+        for vals in groups.values() {
+            if vals.len() > 2000 {
+                continue;
+            }
+            for i in 0..vals.len() {
+                let mut acc: i128 = 0;
+                for v in &vals[i..] {
+                    acc += v;
+                    if acc == i64::MAX as i128 {
+                        return true;
+                    }
+                }
+            }
+        }
+    }
+    false
+}
+
+/// The construct of a shape signature most likely to matter, by a fixed priority: keeps the number
+/// of violation classes small while still separating the shapes with known trouble from the rest.
+pub fn dominant_feature(features: &str) -> &'static str {
+    const PRIORITY: &[&str] = &[
+        "null_typed_partition",
+        "sum_partial_is_null_marker",
+        "const_expr",
+        "agg_on_group_col",
+        "nullable_under_not",
+        "nullable_under_or",
+        "is_null_under_not",
+        "is_null_under_or",
+        "col_col",
+        "nullable_leaves2",
+        "str_const_leaves2",
+        "arith_nullable",
+        "group_nullable",
+        "agg_nullable",
+        "order_nullable",
+        "str_order",
+        "group_float",
+        "agg_float",
+        "groupN",
+        "nullable_cmp",
+        "float_cmp",
+        "str_eq",
+        "group_str",
+        "order_expr",
+        "orderN",
+        "select_expr",
+        "offset",
+        "limit",
+        "not",
+        "or",
+        "is_null",
+    ];
+    let fs: Vec<&str> = features.split('+').collect();
+    for p in PRIORITY {
+        if fs.contains(p) {
+            return p;
+        }
+    }
+    "plain"
+}
+
+
+/// every column a query mentions
+pub fn query_cols(q: &QSpec, out: &mut Vec<String>) {
+    fn ex(e: &Expr, out: &mut Vec<String>) {
+        match e {
+            Expr::Col(c) => out.push(c.clone()),
+            Expr::Add(a, b) | Expr::Sub(a, b) | Expr::Mul(a, b) | Expr::Div(a, b) | Expr::Mod(a, b) => {
+                ex(a, out);
+                ex(b, out);
+            }
+            _ => {}
+        }
+    }
+    fn pr(p: &Pred, out: &mut Vec<String>) {
+        match p {
+            Pred::Cmp(_, a, b) => {
+                ex(a, out);
+                ex(b, out);
+            }
+            Pred::IsNull(c) | Pred::IsNotNull(c) => out.push(c.clone()),
+            Pred::And(a, b) | Pred::Or(a, b) => {
+                pr(a, out);
+                pr(b, out);
+            }
+            Pred::Not(a) => pr(a, out),
+        }
+    }
+    for s in &q.select {
+        match s {
+            SelItem::E(e) | SelItem::Agg(_, e) => ex(e, out),
+        }
+    }
+    if let Some(p) = &q.filter {
+        pr(p, out);
+    }
+    for (e, _) in &q.order {
+        ex(e, out);
+    }
 }
